@@ -10,7 +10,7 @@ from __future__ import annotations
 import os
 import sys
 
-__all__ = ["Skip", "skip", "assume", "forked", "fixlen", "verdict", "WITNESS", "NOSTUBS", "symbolic_run"]
+__all__ = ["Skip", "skip", "assume", "forked", "fixlen", "concrete", "verdict", "WITNESS", "NOSTUBS", "symbolic_run"]
 
 WITNESS = os.environ.get("VF_WITNESS") == "1"
 NOSTUBS = os.environ.get("VF_NOSTUBS") == "1"
@@ -65,6 +65,18 @@ def verdict(ok) -> bool:
     if ok:
         return True
     return False
+
+
+def concrete(fn, *args, **kwargs):
+    """Run ``fn`` on arguments that are already fully concrete (all symbolic selectors have
+    been forked) without CrossHair's opcode tracing.  Semantically identical -- no symbolic
+    value flows in, so there is nothing to intercept -- but 10-50x faster."""
+    if symbolic_run():
+        from crosshair.tracers import NoTracing
+
+        with NoTracing():
+            return fn(*args, **kwargs)
+    return fn(*args, **kwargs)
 
 
 def symbolic_run() -> bool:
